@@ -44,6 +44,9 @@ func knownNilIn(fs factSet, v ssa.Value, wantNil bool) bool {
 	if !wantNil && isNonNilErrValue(rv, 0) {
 		return true
 	}
+	if wantNil && rv != nil && isErrorType(rv.Type()) && nilImpliedByAggregate(fs, rv) {
+		return true
+	}
 	for k := range fs {
 		bo, ok := k.v.(*ssa.BinOp)
 		if !ok || (bo.Op != token.EQL && bo.Op != token.NEQ) {
